@@ -1,8 +1,9 @@
 """Gen/SetIterSites.lean: inventory of every place in the compile path that *observes the iteration order of a set*.
 
-READ (Python `ast`) from compiler.py, idtracking.py, ext.py, parser.py, nodes.py, meta.py, optimizer.py.
+READ (Python `ast`) from compiler.py, idtracking.py, ext.py, parser.py, nodes.py, meta.py, optimizer.py and — because every
+registered filter / test is run at COMPILE time when its operands are constants (constant folding) — filters.py, tests.py, utils.py.
 
-Static set typing (intra-procedural, plus attribute and return types collected over all seven files):
+Static set typing (intra-procedural, plus attribute and return types collected over all ten files):
   * literals `{a, b}`, set comprehensions, `set(..)`, `frozenset(..)`;
   * `.copy()/.union()/.difference()/.intersection()/.symmetric_difference()` of a set, `|,&,-,^` with a set operand
     (this covers `d.keys() - s`);
@@ -34,7 +35,7 @@ import ast
 
 from .common import HEADER, SRC, Untranslatable, lbool, llist, lstr
 
-FILES = ["compiler", "idtracking", "ext", "parser", "nodes", "meta", "optimizer"]
+FILES = ["compiler", "idtracking", "ext", "parser", "nodes", "meta", "optimizer", "filters", "tests", "utils"]
 SET_CTORS = {"set", "frozenset"}
 SET_RET_METHODS = {"copy", "union", "difference", "intersection", "symmetric_difference"}
 SET_ARG_METHODS = {"update", "difference_update", "intersection_update", "symmetric_difference_update", "issubset",
